@@ -46,7 +46,7 @@ fn build_sd(c: &C02Case, conceal: i64, disclose: i64, tamper: i64) -> Option<Bui
     _ => {}
   }
   let kid = match c.kid.0 { 0 => None, 1 => Some("not a did url".to_string()), _ => Some(ustr(c.kid.1)) };
-  let mut h = Map::new(); h.insert("alg".into(), json!("EdDSA")); h.insert("typ".into(), json!("JWT")); if let Some(k) = kid { h.insert("kid".into(), json!(k)); } if let Some(n) = c.nonce { h.insert("nonce".into(), json!(format!("n{n}"))); }
+  let mut h = Map::new(); h.insert("alg".into(), json!("EdDSA")); h.insert("typ".into(), json!("JWT")); if let Some(k) = kid { h.insert("kid".into(), json!(k)); } if let Some(n) = c.nonce { h.insert("nonce".into(), json!(crate::c02::nonce_str(n))); }
   let jwt = compact(&Value::Object(h), payload.as_bytes(), c.sigkey);
   let decodes = SdObjectDecoder::new_with_sha256().decode(serde_json::from_str::<Value>(&payload).ok()?.as_object()?, &ds).is_ok();
   Some(Built { token: SdJwt::new(jwt, ds, None), decodes })
